@@ -31,6 +31,16 @@ OUTSIDE = {
     "C12-17": "SCSIDevice.__exit__ / SCSI.__exit__ return True and swallow the exception leaving a with block: every command that is issued still round-trips; 'a device error surfaces to the caller' is C07's statement, and C07 catches it",
     "C14-16": "the iSCSI transport masks the status byte with 3Eh so that TASK ABORTED (40h) is treated as GOOD: every value the library *exposes* under a name is still T10's (C14's statement); acting on a completion status is C07's statement, and C07 catches it",
     "C16-16": "SCSIDevice records the new inode before the re-open after a replug has succeeded: command-set selection is untouched; handles and replug detection under failing re-opens are C15's statement, and C15 catches it",
+    "C02-18": "SCSI.reportluns() issues a second, larger REPORT LUNS when the list did not fit: the command classes and their encode/decode functions are untouched; 'hands that command to the device exactly once' is C13's statement, and C13 catches it (replies announcing more than fits)",
+    "C02-20": "SCSI.modesense10() forces DBD=1 on CD/DVD devices: constructor and encoders untouched; arguments -> CDB through the attached facade is C01's / C13's observation point, and both catch it (facade attached to units of every device type)",
+    "C04-19": "SCSICommand.unmarshall() skips the parser while a CRC of the data-in buffer is unchanged: no parser C04 speaks of is touched; 'the result is the decode of what the device left' on the instance path is C13's statement, and C13 catches it (result edited, command executed and decoded again)",
+    "C06-20": "the ModeSelect6/10 *constructors* clear the PS bits when SP=1: the build/parse functions C06 pairs (marshall_datain / unmarshall_datain) are untouched; the parameter list a command carries is C05's statement, and C05 catches it",
+    "C07-18": "a hidden READ CAPACITY probe behind SCSI.blocksize swallows its own CHECK CONDITION: the command the caller asked for is refused as before; 'no command reaches the device' for a transfer without block size is C17's statement (and the extra command C13's), and both catch it",
+    "C08-18": "the ASC/ASCQ table is read from a data file with open(dirname(__file__)): from a source tree, an installed copy and for every sense buffer nothing changes; the module cannot be imported from a zip archive, which is C19's statement ('every module of the library imports'), and C19 catches it (built copy packed into an archive)",
+    "C12-18": "SCSIDevice.open() records the new inode before the re-open after a replug succeeded: every history without a failing re-open round-trips; handles under failing re-opens are C15's statement, and C15 catches it",
+    "C14-18": "get_opcode() remembers matches per id(table): every shipped table and every value exposed under a name is unchanged; a *caller-built* table that lands on the address of a dead one gets the dead table's entries - 'the operation code the attached device's command set assigns' is C13's statement, and C13 catches it (a quirk table used, dropped and collected, then a standard one)",
+    "C14-19": "OpCode builds its service-action enumeration lazily from the caller's dictionary object: the shipped tables are unaffected; 'an enumeration built from a mapping exposes exactly the supplied names' (the caller reuses his dictionary) is C18's statement, and C18 catches it",
+    "C14-20": "SCSI.modeselect6() answers ILLEGAL REQUEST/20h/00h by sending operation code 5Ah: every table value is T10's; a failed command that is followed by another command instead of reaching the caller is C07's statement, and C07 catches it (well-known conditions on every facade method)",
     "C09-11": "copy.deepcopy(command) shares the decoded result: no other command is created or used, the CDBs and buffers C09 speaks of stay independent; the returned command and its result are C13's observation point, and C13 catches it",
 }
 
